@@ -1222,3 +1222,112 @@ BREAK[-1]["edits"].append(dict(file=DB, old="""        log::trace!("Database rec
 
         log::trace!("Database recovery successful");
 """))
+
+# ======================================================================== C12
+B("C12-remove-no-deleted-check", "C12", "C12:R-C12.1:keyspace::Keyspace::remove", KS,
+  """    pub fn remove<K: Into<UserKey>>(&self, key: K) -> crate::Result<()> {
+        use std::sync::atomic::Ordering;
+
+        if self.is_deleted.load(Ordering::Relaxed) {
+            return Err(crate::Error::KeyspaceDeleted);
+        }
+""",
+  """    pub fn remove<K: Into<UserKey>>(&self, key: K) -> crate::Result<()> {
+""")
+B("C12-flag-before-meta-removal", "C12", "C12:R-C12.1:db::Database::delete_keyspace", DB,
+  """        self.meta_keyspace.remove_keyspace(&handle.name)?;
+
+        handle
+            .is_deleted
+            .store(true, std::sync::atomic::Ordering::Release);
+""",
+  """        handle
+            .is_deleted
+            .store(true, std::sync::atomic::Ordering::Release);
+
+        self.meta_keyspace.remove_keyspace(&handle.name)?;
+""")
+B("C12-replay-unknown-id-into-first", "C12", "C12:R-C12.2:recovery::recover_sealed_memtables", REC,
+  """                let Some(handle) = keyspaces_lock.get(&keyspace_name) else {
+                    continue;
+                };
+
+                let tree = &handle.tree;
+""",
+  """                let Some(handle) = keyspaces_lock.get(&keyspace_name).or_else(|| keyspaces_lock.values().next()) else {
+                    continue;
+                };
+
+                let tree = &handle.tree;
+""")
+B("C12-replay-skips-resolve", "C12", "C12:R-C12.2:db::Database::recover", DB,
+  """                    for keyspace_id in &batch.cleared_keyspaces {
+                        let Some(keyspace_name) = db.meta_keyspace.resolve_id(*keyspace_id)? else {
+                            continue;
+                        };
+
+                        let Some(keyspace) = keyspaces.get(&keyspace_name) else {
+                            continue;
+                        };
+
+                        keyspace.tree.clear().ok();""",
+  """                    for keyspace_id in &batch.cleared_keyspaces {
+                        let Some(keyspace) = keyspaces.values().find(|k| k.id == *keyspace_id) else {
+                            continue;
+                        };
+
+                        keyspace.tree.clear().ok();""")
+B("C12-counter-reseed-no-plus-one", "C12", "C12:R-C12.4:recovery::recover_keyspaces:counter", REC,
+  "db.keyspace_id_counter.set(highest_id + 1);", "db.keyspace_id_counter.set(highest_id);")
+B("C12-max-after-continue", "C12", "C12:R-C12.4:recovery::recover_keyspaces:counter", REC,
+  """        highest_id = highest_id.max(keyspace_id);
+
+        let Some(keyspace_name) = meta_keyspace.resolve_id(keyspace_id)? else {
+            log::debug!("Deleting unreferenced keyspace id={keyspace_id}");
+            std::fs::remove_dir_all(keyspace_path)?;
+            continue;
+        };
+""",
+  """        let Some(keyspace_name) = meta_keyspace.resolve_id(keyspace_id)? else {
+            log::debug!("Deleting unreferenced keyspace id={keyspace_id}");
+            std::fs::remove_dir_all(keyspace_path)?;
+            continue;
+        };
+
+        highest_id = highest_id.max(keyspace_id);
+""")
+B("C12-dir-before-manifest", "C12", "C12:R-C12.5:<keyspace::KeyspaceInner as std::ops::Drop>::drop", KS,
+  """                        if let Err(e) = std::fs::remove_file(manifest_file) {
+                            log::error!(
+                                "Failed to cleanup keyspace manifest at {}: {e}",
+                                path.display(),
+                            );
+                        } else {
+                            if let Err(e) = std::fs::remove_dir_all(path) {""",
+  """                        if let Err(e) = std::fs::remove_file(manifest_file) {
+                            log::error!(
+                                "Failed to cleanup keyspace manifest at {}: {e}",
+                                path.display(),
+                            );
+                        }
+                        {
+                            if let Err(e) = std::fs::remove_dir_all(path) {""")
+B("C12-batch-journals-wrong-id", "C12", "C12:R-C12.3:journal::writer::Writer::write_batch", WRITER,
+  """                &mut self.buf,
+                item.keyspace.id,
+                &item.key,
+                &item.value,
+                item.value_type,""",
+  """                &mut self.buf,
+                item.keyspace.id + 1,
+                &item.key,
+                &item.value,
+                item.value_type,""")
+B("C12-meta-id-mismatch", "C12", "C12:R-C12.4:db::Database::keyspace:one-fresh-id", DB,
+  """            self.meta_keyspace
+                .create_keyspace(keyspace_id, &name, handle.clone(), keyspaces)?;""",
+  """            self.meta_keyspace
+                .create_keyspace(self.keyspace_id_counter.next(), &name, handle.clone(), keyspaces)?;""")
+B("C12-drop-deletes-live-keyspace", "C12", "C12:R-C12.5:<keyspace::KeyspaceInner as std::ops::Drop>::drop", KS,
+  "        if self.is_deleted.load(std::sync::atomic::Ordering::Acquire) {\n            let path = &self.tree.tree_config().path;",
+  "        if !self.is_deleted.load(std::sync::atomic::Ordering::Acquire) {\n            let path = &self.tree.tree_config().path;")
